@@ -11,6 +11,7 @@ mod olpc;
 mod plain;
 mod props;
 mod report;
+mod tamper;
 mod util;
 mod world;
 mod worker;
